@@ -27,7 +27,7 @@ CLAIM = dict(
          "termination are not decided.",
     note="Trusted: rustc MIR and const evaluation; the GUARD instance table and the justified-abort table (one reason "
          "each, rules/abort_table.py); host target only (x86_64 kernels).",
-    technique="dominator/control-dependence guard matching + constant relations + call-graph abort inventory over rustc MIR",
+    technique="dominator/control-dependence guard matching + constant relations + call-graph abort inventory + linear-normal-form comparison of sibling bounds tests over rustc MIR",
 )
 
 P_ = decoders.P
